@@ -1,5 +1,6 @@
 #![allow(dead_code, unused_mut)]
 mod c01;
+mod c10;
 mod c11;
 mod codes;
 mod common;
@@ -49,6 +50,7 @@ fn main() {
                 "C04" => t1props::run_c04(&ctx),
                 "C06" => t1props::run_c06(&ctx),
                 "C17" => t1props::run_c17(&ctx),
+                "C10" => c10::run(&ctx),
                 "C11" => c11::run(&ctx),
                 _ => {
                     eprintln!("unknown property {}", args[2]);
@@ -67,6 +69,8 @@ fn main() {
             println!("replaying {} (property {}, rule {})", h, v["property"], v["rule"]);
             let violated = if h.starts_with("c11.") {
                 c11::replay(&v)
+            } else if h.starts_with("c10.") {
+                c10::replay(&v)
             } else if h == "c01.t1" {
                 c01::replay_c01(&v)
             } else if h == "c17.code" {
